@@ -311,6 +311,7 @@ func init() {
 			{Name: "random", N: func(c *Ctx) int { return tierN(c, 10000, 1000000) }, Run: c16Random},
 			{Name: "ladder", N: func(c *Ctx) int { return tierN(c, 300, 20000) }, Run: c16Ladder},
 			{Name: "long-offsets", N: c16LongOffsetsN, Run: c16LongOffsets, Exhaustive: true},
+			{Name: "structural-strings", N: c16StructN, Run: c16Struct, Exhaustive: true},
 			{Name: "values", N: func(c *Ctx) int { return tierN(c, 20000, 1500000) }, Run: c16Values},
 		},
 	})
@@ -355,4 +356,32 @@ func c16LongOffsets(c *Ctx, idx int) {
 		}
 	}
 	c.Nontrivial("long-offsets", fmt.Sprint(idx))
+}
+
+// c16StructuralStrings: JSON literals whose *strings* are made of the characters that give JSON its
+// structure - 1..70000 brackets, braces, quotes (escaped), commas, colons, backticks (escaped for the
+// literal syntax) - placed after strings that end in an escaped backslash or an escaped quote, as
+// elements, keys and values.  A pre-scan that tracks "inside a string" with anything less than the
+// real rule miscounts here.  Direct oracle: the literal evaluates to the value it spells.
+func c16StructN(c *Ctx) int { return 10 * 8 }
+
+func c16Struct(c *Ctx, idx int) {
+	n := []int{1, 100, 9999, 10000, 10001, 20000, 65536, 70000, 100001, 5}[idx%10]
+	fill := []string{"[", "{", "]", "[{", "\\\"", ",", ":", "\\`"}[idx/10]
+	dec := strings.NewReplacer("\\\"", "\"", "\\`", "`").Replace(fill)
+	body := strings.Repeat(fill, n)
+	want := strings.Repeat(dec, n)
+	for _, first := range []struct{ text, dec string }{{"a\\\\", "a\\"}, {"C:\\\\", "C:\\"}, {"q\\\"", "q\""}, {"\\\\\\\\", "\\\\"}, {"plain", "plain"}, {"", ""}} {
+		feats := map[string]string{"stream": "structural-strings", "fill": fill, "count": fmt.Sprint(n)}
+		lit := "`[\"" + first.text + "\", \"" + body + "\"]`"
+		c.c16Expect(lit+"[1]", nil, want, "C16/json-literal", feats)
+		c.c16Expect(lit+"[0]", nil, first.dec, "C16/json-literal", feats)
+		obj := "`{\"" + first.text + "\": \"" + body + "\", \"z\": \"" + first.text + "\"}`"
+		c.c16Expect(obj+".z", nil, first.dec, "C16/json-literal", feats)
+		c.c16Expect("`{\"k\": \""+first.text+"\", \"v\": [\""+body+"\"]}`.v[0]", nil, want, "C16/json-literal", feats)
+		if !strings.Contains(fill, "`") {
+			c.c16Expect("`\""+first.text+body+"\"`", nil, first.dec+want, "C16/json-literal", feats)
+		}
+	}
+	c.Nontrivial("structural-strings", fmt.Sprint(idx))
 }
